@@ -75,4 +75,16 @@ CHECKS = {
         'note': 'Assumed: POSIX atomic rename within a directory, TemporaryDirectory finaliser at interpreter exit, unbuffered visibility model (stronger than reality), signals inside multiprocessing internals leave no child writing the output file (workers never write it). The rendering uses one concrete input of two commands: the protocol does not depend on the content.',
         'technique': 'contract-based deductive verification: crash-point invariant over a ghost file-system model of the real function, z3/structural; native interrupt injection as bounded stand-in',
     },
+    'C07': {
+        'category': 'exploration',
+        'text': 'Bounded: every forest of <= 2 trees with <= 5 nodes (6 thorough) whose leaves range over 12 lexemes chosen for the boundaries the property names (100-character token, hyphenated token, literals containing space, doubled quote, parenthesis, semicolon; quoted symbols with space and newline; comment; #b literal; keyword), plus 8 wide inputs that force line wrapping, is rendered by the four real renderers; each rendering is tokenised by an independent reference SMT-LIB reader and must equal the flat token sequence of the input, and is re-parsed by ddSMT and must be structurally the input.',
+        'note': 'Bounded stand-in only: the renderers are explicit-stack loops and the scanner a character loop; an unbounded proof needs a forest-recursive specification plus induction outside what z3 does unprompted (DESIGN section 4). Not counted as proved.',
+        'technique': 'run-time contracts on the real renderers/parser over an exhaustively enumerated domain against a reference reader (bounded stand-in)',
+    },
+    'C08': {
+        'category': 'exploration',
+        'text': 'Bounded, exhaustive: every string of length <= 6 (7 thorough) over 11 representative characters - one per lexical class the scanner distinguishes, two for ordinary token characters - that is a balanced, complete and separated lexeme sequence for the reference reader is parsed by the real parser and compared (structure and token texts, comments as leaves); the parser must raise nothing on any of the ~2 million strings. That one representative per class suffices is a mechanically checked obligation on the AST of parse_smtlib (every branch condition tests the current character against literal character sets covered by the alphabet, or positions / emptiness flags).',
+        'note': 'Length bound 6/7; the finite-state argument that disagreements show on short strings is stated, not machine-checked. Domain: lexemes separated by white space except next to parentheses and before comments.',
+        'technique': 'exhaustive bounded comparison of the real parser with a reference reader + mechanically checked class-abstraction obligation on the AST',
+    },
 }
